@@ -58,6 +58,7 @@ class Opts:
         self.kdurs = [1, 2, 3, 4, 7, 12]
         self.backward_ann = False  # main thread carries '## backward ##' annotations (not nested in each other)
         self.force_second_thread = False
+        self.rank_vocab = None  # optional list of (op_names, kernel_names), one per rank (cycled)
         self.body_fn = None  # optional (draw, opts, streams) -> items: replaces the top-level body of the main thread
         self.annotations = True
         self.template = False
@@ -378,7 +379,11 @@ def sim_case(draw, o: Optional[Opts] = None, max_ranks: int = 2, same_steps: boo
     first_step = pick(draw, [0, 3, 100])
     ranks = []
     for r in range(nranks):
-        prog = draw(rank_program(o, r, nsteps, first_step))
+        o_r = o
+        if o.rank_vocab:
+            ops_r, kern_r = o.rank_vocab[r % len(o.rank_vocab)]
+            o_r = Opts(**{**o.__dict__, "op_names": ops_r, "kernel_names": kern_r})
+        prog = draw(rank_program(o_r, r, nsteps, first_step))
         sim = simulate_rank(prog, epoch)
         events = draw(merge_order(sim))
         if extras_trace_span:  # exactly one profiler span entry, as Kineto writes it
